@@ -286,12 +286,17 @@ def post_mirror(ctx, call):
 def post_is_parallel(ctx, call):
     from geometer.point import LineTensor, PlaneTensor
 
-    if call.exc is not None:
-        return
     self, other = call.args[0], _arg(call, 1, "other")
-    res = np.asarray(call.result)
-    if not (R.finite(self.array) and R.finite(other.array)):
+    if not (S._is_tensor(other) and R.finite(self.array) and R.finite(other.array)):
         return
+    if call.exc is not None:
+        # the predicate decides a relation of two finite subspaces: coinciding ones are parallel, skew lines are not
+        if sub_geom(self, np.asarray(self.array).reshape((-1,) + self.shape[S.coll_axes(self):])[0]) is None:
+            return
+        ctx.judge("is_parallel", False, [self, other], what=f"is_parallel raised {type(call.exc).__name__}: {str(call.exc)[:80]}", op="is_parallel", nontrivial=True,
+                  feat={"op": "is_parallel", "exc": type(call.exc).__name__, "dim": int(self.shape[-1]) - 1})
+        return
+    res = np.asarray(call.result)
     integral = R.is_dyadic(self.array, 30) and R.is_dyadic(other.array, 30)
 
     def check(pos, es):
@@ -465,7 +470,7 @@ def post_is_cocircular(ctx, call):
 
 
 def post_is_coplanar(ctx, call):
-    if call.exc is not None or call.kwargs:
+    if call.kwargs:
         return
     args = call.args
     if not all(S._is_tensor(a) for a in args):
@@ -478,7 +483,19 @@ def post_is_coplanar(ctx, call):
     if len(args) < n or not all(R.is_integral(a.array, 1000) for a in args):
         ctx.skip("is_coplanar", "non-lattice operands / too few arguments")
         return
+    if call.exc is not None:
+        ctx.judge("is_coplanar", False, list(args), what=f"is_coplanar/collinear/concurrent raised {type(call.exc).__name__}: {str(call.exc)[:80]}", op="is_coplanar", nontrivial=True,
+                  feat={"exc": type(call.exc).__name__, "same_object_twice": any(a is b for i, a in enumerate(args) for b in args[:i])})
+        return
     res = np.asarray(call.result)
+    try:
+        full = np.broadcast_shapes(*[S.coll_shape(a) for a in args])
+    except ValueError:
+        return
+    if res.shape != tuple(full):
+        ctx.judge("is_coplanar", False, list(args), what=f"result shape {res.shape} != collection shape {tuple(full)} of the arguments", op="is_coplanar", nontrivial=True,
+                  feat={"shape": True, "nargs": len(args), "n": int(n)})
+        return
 
     def check(pos, es):
         want = X.rank([X.vec(e) for e in es]) <= n - 1
@@ -618,6 +635,13 @@ def g_constructions2d(ctx, rng, i):
     m = g.Line(_line2(rng, (cls + i // 8) % 4, mode))
     _try(l.is_parallel, m)
     _try(l.is_parallel, g.Line(np.append(h[:2] * 3, h[2] + 2)))
+    # a line is parallel to itself, to another representative of itself and to its own parallel through one of its points
+    _try(l.is_parallel, l)
+    _try(l.is_parallel, g.Line(h * -2.0))
+    par_on = _try(l.parallel, p_on)
+    if par_on is not None:
+        _try(l.is_parallel, par_on)
+    _try(g.LineCollection(np.stack([h * 1.0, m.array * 1.0, h * 3.0])).is_parallel, l)
     _try(g.is_perpendicular, l, m)
     _try(g.is_perpendicular, l, g.Line(np.array([h[1], -h[0], int(rng.integers(-4, 5))])))
     _try(g.angle_bisectors, l, m)
@@ -671,6 +695,17 @@ def g_constructions2d(ctx, rng, i):
     _try(g.is_collinear, *[g.PointCollection(c) for c in cols])
     _try(g.is_concurrent, *[g.LineCollection(c) for c in cols])
     _try(g.is_collinear, g.PointCollection(cols[0]), g.PointCollection(cols[1]), g.PointCollection(cols[2]), g.Point(rows[0][3]))
+    # single leading arguments and a collection as last one (the result has the shape of the collection), collinear and not
+    u, v = rows[1][0], rows[1][1]
+    _try(g.is_collinear, g.Point(u), g.Point(v), g.Point(2 * u - v), g.PointCollection(cols[3]))
+    _try(g.is_collinear, g.Point(u), g.Point(v), g.Point(gen.nonzero_vec(rng, 3, 4)), g.PointCollection(cols[3]))
+    _try(g.is_concurrent, g.Line(u), g.Line(v), g.Line(2 * u - v), g.LineCollection(cols[3]))
+    # the same object passed twice
+    pu = g.Point(u)
+    _try(g.is_collinear, pu, pu, g.Point(v))
+    _try(g.is_collinear, pu, g.Point(v), pu, g.Point(2 * u - v))
+    lu = g.Line(u)
+    _try(g.is_concurrent, lu, lu, g.Line(v), g.Line(u + v))
 
 
 def g_constructions3d(ctx, rng, i):
@@ -719,6 +754,14 @@ def g_constructions3d(ctx, rng, i):
     _try(e.is_parallel, g.Plane(np.append(e.array[:3], e.array[3] + 1)))
     _try(e.is_parallel, g.Plane(gen.nonzero_vec(rng, 4, 4)))
     _try(e.is_parallel, g.Line(p_off, g.Point(p_off.normalized_array + (b - a))))
+    # a plane / a line of space is parallel to itself and to its parallel through one of its own points; skew lines are not parallel
+    _try(e.is_parallel, e)
+    _try(e.is_parallel, g.Plane(np.asarray(e.array) * -3.0))
+    _try(l.is_parallel, l)
+    _try(l.is_parallel, g.Line(B, A))
+    _try(l.is_parallel, g.Line(p_off, g.Point(p_off.normalized_array + (b - a))))
+    _try(l.is_parallel, g.Line(p_off, g.Point(p_off.normalized_array + (c - a))))
+    _try(l.is_coplanar, l)
     _try(g.is_perpendicular, l, m)
     _try(g.is_perpendicular, e, g.Plane(gen.nonzero_vec(rng, 4, 4)))
     n = e.array[:3]
